@@ -5,6 +5,7 @@ import (
 	"fmt"
 	"os"
 	"runtime"
+	"strings"
 	"time"
 )
 
@@ -55,6 +56,9 @@ func cmdRun(args []string) {
 	workers := fs.Int("j", runtime.NumCPU(), "")
 	verbose := fs.Bool("v", false, "")
 	maxPaths := fs.Int64("max-paths", 0, "")
+	budget := fs.Int("budget", 0, "wall-clock budget in seconds per harness")
+	params := fs.String("params", "", "k=v,k=v harness parameters")
+	vector := fs.String("vector", "", "comma-separated concrete nondet values (concrete run)")
 	fs.Parse(args)
 	t0 := time.Now()
 	lp, err := loadProgram(*repo, *hd)
@@ -67,6 +71,22 @@ func cmdRun(args []string) {
 	cfg.Workers = *workers
 	cfg.Verbose = *verbose
 	cfg.MaxPaths = *maxPaths
+	cfg.Params = map[string]int{}
+	for _, kv := range strings.Split(*params, ",") {
+		if k, v, ok := strings.Cut(kv, "="); ok {
+			n := 0
+			fmt.Sscan(v, &n)
+			cfg.Params[k] = n
+		}
+	}
+	if *vector != "" {
+		cfg.Vector = []uint64{}
+		for _, x := range strings.Split(*vector, ",") {
+			var v uint64
+			fmt.Sscan(strings.TrimSpace(x), &v)
+			cfg.Vector = append(cfg.Vector, v)
+		}
+	}
 	eng := &Engine{prog: lp.prog, cfg: cfg, lp: lp}
 	registerIntrinsics(eng)
 	for _, name := range fs.Args() {
@@ -74,6 +94,9 @@ func cmdRun(args []string) {
 		if fn == nil {
 			fmt.Fprintln(os.Stderr, "no such harness:", name)
 			os.Exit(2)
+		}
+		if *budget > 0 {
+			eng.cfg.Deadline = time.Now().Add(time.Duration(*budget) * time.Second)
 		}
 		res := eng.RunHarness(fn)
 		printResult(res)
